@@ -64,6 +64,11 @@ def discover_pairs(object_classes=None, group_classes=None):
         for attr in entity_attrs(cls):
             if attr not in EXCLUDED and has_setter(cls, attr):
                 pairs.append(("data", cname, attr))
+    # concatenated storage: a drillhole of a drillhole group and a depth log on it
+    cls = F.get_class("Drillhole")
+    pairs += [("cobject", "Drillhole", attr) for attr in entity_attrs(cls) if attr not in EXCLUDED and has_setter(cls, attr)]
+    cls = getattr(gdata, "FloatData")
+    pairs += [("cdata", "FloatData", attr) for attr in entity_attrs(cls) if attr not in EXCLUDED and has_setter(cls, attr)]
     for owner, cname in (("objtype", "Points"), ("grouptype", "ContainerGroup")):
         for attr in ("name", "description"):
             pairs.append((owner, cname, attr))
@@ -279,6 +284,19 @@ def build_owner(ws, owner, cname, geom, extra=None):
         ent = cls.create(ws, name="target", **kwargs)
         # a sibling of the same class makes lost/misrouted writes visible
         return ent, (ent.entity_type if owner == "objtype" else ent)
+    if owner in ("cobject", "cdata"):
+        from geoh5py.groups import DrillholeGroup
+        from geoh5py.objects import Drillhole
+
+        grp = DrillholeGroup.create(ws, name="holes")
+        other = Drillhole.create(ws, parent=grp, name="other", collar=[5.0, 0.0, 0.0],
+                                 surveys=np.asarray([[0.0, 0.0, -90.0], [30.0, 0.0, -90.0]]))
+        other.add_data({"target": {"depth": np.asarray([1.0, 2.0]), "values": np.asarray([7.0, 8.0])}})
+        hole = Drillhole.create(ws, parent=grp, name="target", collar=[0.0, 0.0, 0.0],
+                                surveys=np.asarray([[0.0, 0.0, -90.0], [30.0, 10.0, -80.0]]), **(extra or {}))
+        log = hole.add_data({"target": {"depth": np.asarray([1.0, 2.0, 3.0]), "values": np.asarray([4.0, 5.0, 6.0])}})
+        ent = hole if owner == "cobject" else log
+        return ent, ent
     if owner in ("group", "grouptype"):
         cls = F.get_class(cname)
         ent = cls.create(ws, name="target")
